@@ -46,6 +46,7 @@ func usesGlobal(fn *ssa.Function, name string) bool {
 func runC13(c *Ctx) {
 	w := c.W
 	curveTableRule(c, "z/x509/revocation/ocsp.signingParamsForPublicKey", "OCSP response signing")
+	sigParamsTableRule(c, "z/x509/revocation/ocsp.signingParamsForPublicKey")
 	fn := w.Fn(fnPRFC)
 	if fn == nil {
 		c.Undecided("R-CUT", fnPRFC, "anchor", "-", "not found")
